@@ -75,24 +75,34 @@ type vGPU struct {
 }
 
 type vAction struct {
-	Op          string `json:"op"` // req | unload | sleep | burst
-	Req         int    `json:"req,omitempty"`
-	Model       int    `json:"model"`
-	NumCtx      int    `json:"num_ctx,omitempty"`
-	NumGPU      int    `json:"num_gpu,omitempty"`
-	NumBatch    int    `json:"num_batch,omitempty"`
-	KeepAliveUs int    `json:"keep_alive_us,omitempty"` // <0: "forever" (1h); 0: unload when idle
-	NilKeep     bool   `json:"nil_keep_alive,omitempty"`
-	Hold        int    `json:"hold,omitempty"`     // yields (and 50us sleeps every 8th) while holding the runner
-	Gated       bool   `json:"gated,omitempty"`    // hold until the harness opens the gate (used by the queue-full scenario)
-	CancelAt    int    `json:"cancel_at,omitempty"` // >0: cancel this many yields after submit, before any reply
-	LoadMode    string `json:"load,omitempty"`      // ok | fail | block (until the request ctx is cancelled) | ok-late (succeeds although cancelled)
-	LoadDelayUs int    `json:"load_delay_us,omitempty"`
-	SleepUs     int    `json:"sleep_us,omitempty"`
-	Burst       int    `json:"burst,omitempty"` // op burst: number of back-to-back submissions from this goroutine
-	Adapter     int    `json:"adapter,omitempty"` // >0: the request's model carries this adapter path variant
-	KeepOpen    bool   `json:"keep_open,omitempty"` // sequential workload: hold the grant until a later "release" action
-	PingFails   bool   `json:"ping_fails,omitempty"` // sequential workload: the health check made for this request fails
+	Op           string `json:"op"` // req | unload | sleep | burst
+	Req          int    `json:"req,omitempty"`
+	Model        int    `json:"model"`
+	NumCtx       int    `json:"num_ctx,omitempty"`
+	NumGPU       int    `json:"num_gpu,omitempty"`
+	NumBatch     int    `json:"num_batch,omitempty"`
+	KeepAliveUs  int    `json:"keep_alive_us,omitempty"` // <0: "forever" (1h); 0: unload when idle
+	NilKeep      bool   `json:"nil_keep_alive,omitempty"`
+	Hold         int    `json:"hold,omitempty"`      // yields (and 50us sleeps every 8th) while holding the runner
+	Gated        bool   `json:"gated,omitempty"`     // hold until the harness opens the gate (used by the queue-full scenario)
+	CancelAt     int    `json:"cancel_at,omitempty"` // >0: cancel this many yields after submit, before any reply
+	LoadMode     string `json:"load,omitempty"`      // ok | fail | block (until the request ctx is cancelled) | ok-late (succeeds although cancelled)
+	LoadDelayUs  int    `json:"load_delay_us,omitempty"`
+	SleepUs      int    `json:"sleep_us,omitempty"`
+	Burst        int    `json:"burst,omitempty"`          // op burst: number of back-to-back submissions from this goroutine
+	Adapter      int    `json:"adapter,omitempty"`        // >0: the request's model carries this adapter path variant
+	KeepOpen     bool   `json:"keep_open,omitempty"`      // sequential workload: hold the grant until a later "release" action
+	PingFails    bool   `json:"ping_fails,omitempty"`     // sequential workload: the health check made for this request fails
+	CancelInPing bool   `json:"cancel_in_ping,omitempty"` // the client leaves while the scheduler health-checks the loaded runner for it (the next Ping of a runner of this model cancels the request)
+}
+
+// vPingCancel: a request's cancellation armed for the next health check of its model; disarmed once the
+// client has been handed the runner (from then on leaving is the client's release, not a cancellation).
+type vPingCancel struct {
+	mu       sync.Mutex
+	disarmed bool
+	fired    bool
+	fn       func()
 }
 
 type vMockPlan struct {
@@ -156,8 +166,8 @@ type vSlog struct {
 var vSlogH = &vSlog{hits: map[string]int64{}}
 
 func (h *vSlog) Enabled(context.Context, slog.Level) bool { return true }
-func (h *vSlog) WithAttrs([]slog.Attr) slog.Handler        { return h }
-func (h *vSlog) WithGroup(string) slog.Handler             { return h }
+func (h *vSlog) WithAttrs([]slog.Attr) slog.Handler       { return h }
+func (h *vSlog) WithGroup(string) slog.Handler            { return h }
 func (h *vSlog) Handle(_ context.Context, r slog.Record) error {
 	p := h.plan.Load()
 	if p == nil {
@@ -234,6 +244,16 @@ func (m *vMock) Ping(ctx context.Context) error {
 		m.w.log.add("ping-after-close", 0, m.id, m.model, "")
 	}
 	m.w.log.add("ping", 0, m.id, m.model, strconv.Itoa(n))
+	if v, ok := m.w.pingCancel.LoadAndDelete(m.model); ok {
+		pc := v.(*vPingCancel)
+		pc.mu.Lock()
+		if !pc.disarmed {
+			pc.fired = true
+			pc.fn()
+		}
+		pc.mu.Unlock()
+		vYield(4)
+	}
 	vSleepCtx(nil, m.plan.PingDelay)
 	for _, k := range m.plan.PingFail {
 		if k == n {
@@ -329,6 +349,8 @@ type vWorld struct {
 	listeners sync.WaitGroup
 	clients   sync.WaitGroup
 	inGet     atomic.Int32 // client goroutines currently inside GetRunner
+
+	pingCancel sync.Map // model index -> *vPingCancel (armed by submit, fired by the mock's next Ping)
 }
 
 var (
@@ -554,6 +576,37 @@ func (w *vWorld) submit(a vAction) {
 		}()
 	}
 
+	if a.CancelInPing {
+		pc := &vPingCancel{}
+		pc.fn = func() {
+			rs.cancelled.Store(true)
+			w.log.add("cancel", a.Req, 0, a.Model, "in-ping")
+			cancel()
+		}
+		w.pingCancel.Store(a.Model, pc)
+		// like routes.go scheduleRunner: a client that has left does not use a runner that arrives afterwards
+		select {
+		case r := <-okCh:
+			pc.mu.Lock()
+			pc.disarmed = true
+			fired := pc.fired
+			pc.mu.Unlock()
+			if fired {
+				w.log.add("grant", a.Req, vRunnerID(r), a.Model, "late")
+			} else {
+				w.holdAndRelease(a, r, cancel)
+			}
+		case err := <-errCh:
+			w.log.add("error", a.Req, 0, a.Model, vErrKind(err))
+			cancel()
+		case <-ctx.Done():
+		case <-w.ctx.Done():
+			cancel()
+			return
+		}
+		linger()
+		return
+	}
 	if a.CancelAt > 0 {
 		// cancel before any reply unless one arrives first
 		for i := 0; i < a.CancelAt; i++ {
@@ -1042,16 +1095,19 @@ func vHitCounts() map[string]int64 {
 // history generator
 
 type vProfile struct {
-	name        string
-	blockLoads  bool // C01 only: loads that block until the requester cancels
-	queueFull   int  // per mille of histories that are the queue-full scenario
-	multiGPU    int  // per mille of histories with a non-metal / multi-GPU inventory (each unload costs real time)
-	optVariants bool // vary ctx / num_gpu / batch / adapters (reload decisions)
+	name         string
+	blockLoads   bool // C01 only: loads that block until the requester cancels
+	queueFull    int  // per mille of histories that are the queue-full scenario
+	multiGPU     int  // per mille of histories with a non-metal / multi-GPU inventory (each unload costs real time)
+	optVariants  bool // vary ctx / num_gpu / batch / adapters (reload decisions)
 	vramPressure bool // GPU sizes and mock VRAM chosen so that co-loading sometimes does not fit
 	lateLoad     int  // per mille of histories that are the "load succeeds for a requester who has left" scenario
+	pingCancel   int  // per mille of histories that are the "client leaves during the health check of a loaded runner" scenario
 }
 
-func contextWithCancel(w *vWorld) (context.Context, context.CancelFunc) { return context.WithCancel(w.ctx) }
+func contextWithCancel(w *vWorld) (context.Context, context.CancelFunc) {
+	return context.WithCancel(w.ctx)
+}
 
 func vGenHistory(r *kit.Rand, idx int, p vProfile) *vHistory {
 	h := &vHistory{Index: idx, Profile: p.name}
@@ -1139,6 +1195,8 @@ func vGenHistory(r *kit.Rand, idx int, p vProfile) *vHistory {
 				a.LoadMode = "ok-late"
 				a.LoadDelayUs = kit.Pick(r, []int{300, 1000, 3000})
 			}
+		} else if r.Chance(1, 12) {
+			a.CancelInPing = true
 		}
 		return a
 	}
@@ -1181,6 +1239,30 @@ func vGenHistory(r *kit.Rand, idx int, p vProfile) *vHistory {
 			{{Op: "sleep", SleepUs: kit.Pick(r, []int{100, 400})}, b},
 			{{Op: "sleep", SleepUs: kit.Pick(r, []int{300, 1500})}, c, {Op: "unload", Model: 0}},
 			{{Op: "sleep", SleepUs: kit.Pick(r, []int{2000, 6000})}, d},
+		}
+		h.NReq = nextReq - 1
+		return h
+	}
+	if r.Intn(1000) < p.pingCancel {
+		// A loads model 0 and leaves it idle under a finite keep-alive; B (and later C) ask for the same model with
+		// the same options and leave while the scheduler is health-checking the loaded runner for them. No forever
+		// keep-alive and no explicit unload: the history must drain through the keep-alive timers alone.
+		h.Profile = p.name + "/ping-cancel"
+		ka := func() int { return kit.Pick(r, []int{1000, 5000, 20000}) }
+		a := vAction{Op: "req", Req: nextReq, Model: 0, NumCtx: 8, NumGPU: -1, KeepAliveUs: ka(), Hold: kit.Pick(r, []int{0, 4, 16}), LoadMode: "ok"}
+		nextReq++
+		b := vAction{Op: "req", Req: nextReq, Model: 0, NumCtx: 8, NumGPU: -1, KeepAliveUs: ka(), Hold: 4, LoadMode: "ok", CancelInPing: true}
+		nextReq++
+		c := vAction{Op: "req", Req: nextReq, Model: 0, NumCtx: 8, NumGPU: -1, KeepAliveUs: ka(), Hold: 4, LoadMode: "ok", CancelInPing: r.Chance(1, 2)}
+		nextReq++
+		d := vAction{Op: "req", Req: nextReq, Model: 1, NumCtx: 8, NumGPU: -1, KeepAliveUs: 1000, Hold: 8, LoadMode: "ok"}
+		nextReq++
+		for i := range h.MockPlans {
+			h.MockPlans[i].PingFail = nil
+		}
+		h.Clients = [][]vAction{
+			{a, {Op: "sleep", SleepUs: kit.Pick(r, []int{100, 400})}, b, {Op: "sleep", SleepUs: kit.Pick(r, []int{50, 300})}, c},
+			{{Op: "sleep", SleepUs: kit.Pick(r, []int{500, 3000})}, d},
 		}
 		h.NReq = nextReq - 1
 		return h
